@@ -79,7 +79,7 @@ pub fn managed_race(prop: &'static str, seed: u64, close: bool) -> RaceOut {
     let few = prop == "C11" && rng.chance(1, 2);
     let dense = dense && !few;
     let threads = if small { 3 } else if few { rng.range(1, 2) as usize } else if dense { rng.range(12, 40) as usize } else { rng.range(3, 12) as usize };
-    let iters = if small { rng.range(3, 8) as usize } else { rng.range(200, 1500) as usize };
+    let iters = if small { rng.range(3, 8) as usize } else if few { rng.range(5000, 20000) as usize } else { rng.range(200, 1500) as usize };
     let start_max = rng.range(1, 4) as usize;
     let resizes: Vec<usize> = (0..rng.range(4, if cfg!(miri) { 6 } else { 40 })).map(|_| rng.usize_below(6)).collect();
     let final_max = *resizes.last().unwrap();
@@ -149,7 +149,9 @@ pub fn managed_race(prop: &'static str, seed: u64, close: bool) -> RaceOut {
                 if stop.load(Ordering::SeqCst) {
                     return (n, None);
                 }
-                std::thread::yield_now();
+                if !few {
+                    std::thread::yield_now();
+                }
             }
         })
     };
